@@ -15,6 +15,9 @@ T1 == [tree |-> "T1", sub |-> "a", files |-> T1Files]
 T2 == [tree |-> "T2", sub |-> "A", files |-> T2Files]
 T3 == [tree |-> "T3", sub |-> "*", files |-> T2Files]        \* the nested ignore file lives in a directory named `*`
 T4 == [tree |-> "T4", sub |-> "a/b.c", files |-> T1Files]    \* ... two levels down
+\* four levels: for `**/`-patterns of several components of which one is the tail of another
+T5Files == <<"a/a/b.c/a", "a/a/b.c/b.c", "a/b.c/a", "b.c/a", "a/a/a", "A/a/b.c/a", "c">>
+T5 == [tree |-> "T5", sub |-> "a", files |-> T5Files]
 Trees == {T1, T2, T3}
 
 \* ---------------------------------------------------------------- the line grammar
@@ -41,6 +44,9 @@ PB == {"!a", "!a/", "!/a", "!a/a", "!a/b.c", "!b.c", "!*.c", "!*", "!*/", "!**/b
 PDup == {"!*.c", "!b.c", "!a/", "!a", "!*", "*.c", "!/a/b.c/"}
 PDupFirst == {"*.c", "b.c", "a/", "a", "!b.c", "/a/b.c/", "*"}
 PNegRoot == {"!b.c", "!a/b.c", "!A/"}
+\* malformed lines (unterminated bracket): they match nothing, and the lines around them mean what they mean without them
+PSuf == {"**/a/b.c/a", "!**/b.c/a", "**/b.c/a", "!**/a/b.c/a", "**/a/b.c", "!**/b.c", "**/a/b.c/", "!**/a/a/b.c", "!**/a/b.c/", "**/a/a"}
+PBad == {"*.[oa", "a[", "!a[", "[", "b.[c/"}
 PS == {"!a", "!/a", "!b.c", "!*.c", "!*", "!b.c/", "!A", "!**/b.c", "!.h", "!b.c/a", "!-x",
        "a", "/b.c", "*", "b.c/", "-x", "*.c"}
 PC == {"a/b.c", "/b.c", "*.c", "!*.c", "a/b.c/", "!a/b.c/b.c", "*", "!*", "#*", "A", "!A/a"}
@@ -60,6 +66,13 @@ MCScenariosOf(sd) ==
     [] sd.fam = "nest"   -> {Mk(sd.t, sd.ci, <<sd.l1>>, <<s>>) : s \in PS}
     \* the same line twice with a contradicting one in between: the last occurrence decides
     [] sd.fam = "dup" -> {Mk(sd.t, sd.ci, <<sd.l1, l2, sd.l1>>, <<>>) : l2 \in PDup} \cup {Mk(sd.t, sd.ci, <<>>, <<sd.l1, l2, sd.l1>>) : l2 \in PDup}
+    \* two `**/` patterns of several components, one the tail of the other, in both orders (the later line decides)
+    [] sd.fam = "suffix" -> {Mk(sd.t, sd.ci, <<sd.l1, l2>>, <<>>) : l2 \in PSuf \ {sd.l1}}
+                            \cup {Mk(sd.t, sd.ci, <<>>, <<sd.l1, l2>>) : l2 \in {"!**/b.c/a", "**/b.c/a", "!**/b.c", "**/a/b.c"} \ {sd.l1}}
+    \* a malformed line in front of / between other lines, in the root file or in the nested one
+    [] sd.fam = "bad" -> {Mk(sd.t, sd.ci, <<sd.l1, l2>>, <<>>) : l2 \in PB \cup {"a/", "b.c/", "*/", "a"}}
+                         \cup {Mk(sd.t, sd.ci, <<l0, sd.l1, l2>>, <<>>) : l0 \in {"*", "*.c", "a/"}, l2 \in {"!b.c", "!a/", "!*.c", "!a/b.c/", "A/"}}
+                         \cup {Mk(sd.t, sd.ci, <<"*">>, <<sd.l1, l2>>) : l2 \in PS}
     \* three lines (thorough)
     [] sd.fam = "triples" -> UNION {{Mk(sd.t, sd.ci, <<sd.l1, sd.l2, l3>>, <<>>), Mk(sd.t, sd.ci, <<sd.l1, l3, sd.l2>>, <<>>),
                                      Mk(sd.t, sd.ci, <<l3, sd.l2, sd.l1>>, <<>>)} : l3 \in PC}
@@ -76,6 +89,8 @@ QuickSeeds ==
   \cup {Seed(t, FALSE, "nest", l, "") : t \in Trees \cup {T4}, l \in PA \cup PNegRoot}
   \cup {Seed(T1, TRUE, "pairs", l, "") : l \in {"a", "A", "a/*"}}
   \cup {Seed(T1, FALSE, "dup", l, "") : l \in PDupFirst}
+  \cup {Seed(T1, FALSE, "bad", l, "") : l \in PBad}
+  \cup {Seed(T5, FALSE, "suffix", l, "") : l \in PSuf}
 
 ThoroughSeeds ==
   {Seed(t, ci, "single", l, "") : t \in {T1, T2}, ci \in BOOLEAN, l \in SingleLines}
@@ -83,6 +98,8 @@ ThoroughSeeds ==
   \cup {Seed(t, ci, "pairs", l, "") : t \in {T1, T2}, ci \in BOOLEAN, l \in PA}
   \cup {Seed(t, ci, "nest", l, "") : t \in Trees \cup {T4}, ci \in BOOLEAN, l \in PA \cup PNegRoot}
   \cup {Seed(t, ci, "dup", l, "") : t \in {T1, T2}, ci \in BOOLEAN, l \in PDupFirst}
+  \cup {Seed(t, ci, "bad", l, "") : t \in {T1, T2}, ci \in BOOLEAN, l \in PBad}
+  \cup {Seed(T5, ci, "suffix", l, "") : ci \in BOOLEAN, l \in PSuf}
   \cup {Seed(t, FALSE, "triples", l1, l2) : t \in {T1, T2}, l1 \in PA, l2 \in PB}
   \cup {Seed(t, FALSE, "nest21", l1, l2) : t \in Trees \cup {T4}, l1 \in PA, l2 \in PB}
   \cup {Seed(T1, FALSE, "nest21r", l1, l2) : l1 \in PA, l2 \in PB}
